@@ -44,6 +44,27 @@ func getLexLife(c *Ctx) *lexLife {
 			return true
 		})
 	}
+	// wrappers: a function that returns the result of an acquiring call hands the scanner on
+	for changed := true; changed; {
+		changed = false
+		for _, fd := range c.allFuncDecls("parse") {
+			fn := info.Defs[fd.Name].(*types.Func)
+			if ll.acquire[fn] {
+				continue
+			}
+			ast.Inspect(fd.Body, func(x ast.Node) bool {
+				if rs, ok := x.(*ast.ReturnStmt); ok && len(rs.Results) == 1 {
+					if call, ok := ast.Unparen(rs.Results[0]).(*ast.CallExpr); ok {
+						if cal := calleeFunc(call, info); cal != nil && ll.acquire[cal] {
+							ll.acquire[fn] = true
+							changed = true
+						}
+					}
+				}
+				return true
+			})
+		}
+	}
 	if len(ll.acquire) == 0 || len(ll.drain) == 0 {
 		c.fatalf("anchor: scanner start (go statement) or drain (range over channel) not found in parse: acquire=%d drain=%d", len(ll.acquire), len(ll.drain))
 		return nil
